@@ -7,7 +7,7 @@ import (
 	"net"
 	"time"
 
-	"bufio"
+	"encoding/binary"
 	"io"
 	"io/ioutil"
 )
@@ -23,8 +23,11 @@ type Connection struct {
 	connection net.Conn
 	context    Context
 
-	// Used to buffer reads
-	readBuffer io.Reader
+	// Received bytes of a frame which is not complete yet
+	encrypted []byte
+
+	// Decrypted bytes which were not returned by Read yet
+	decrypted bytes.Buffer
 }
 
 // NewConnection returns a hap connection.
@@ -62,30 +65,60 @@ func (con *Connection) EncryptedWrite(b []byte) (int, error) {
 
 // DecryptedRead reads and decrypts bytes from the connection.
 // The method returns the number of read bytes and an error when reading failed.
+//
+// Bytes received from the connection are collected until a frame is complete –
+// independent of how the network splits or joins frames. Every complete frame is
+// decrypted on its own and its content is returned by this and, if b is too small,
+// by the following calls.
 func (con *Connection) DecryptedRead(b []byte) (int, error) {
-	if con.readBuffer == nil {
-		buffered := bufio.NewReader(con.connection)
-		decrypted, err := con.getDecrypter().Decrypt(buffered)
+	for con.decrypted.Len() == 0 {
+		frame, err := con.readFrame()
 		if err != nil {
 			if neterr, ok := err.(net.Error); ok && neterr.Timeout() {
 				// Ignore timeout error #77
+				// Bytes of an incomplete frame are kept for the next call
 			} else {
-				log.Debug.Println("Decryption failed:", err)
-				err = con.connection.Close()
+				log.Debug.Println("Reading failed:", err)
+				con.connection.Close()
 			}
 			return 0, err
 		}
 
-		con.readBuffer = decrypted
+		decrypted, err := con.getDecrypter().Decrypt(bytes.NewReader(frame))
+		if err != nil {
+			log.Debug.Println("Decryption failed:", err)
+			// Nothing which was received after an invalid frame must be used
+			con.encrypted = nil
+			con.connection.Close()
+			return 0, err
+		}
+
+		io.Copy(&con.decrypted, decrypted)
 	}
 
-	n, err := con.readBuffer.Read(b)
+	return con.decrypted.Read(b)
+}
 
-	if n < len(b) || err == io.EOF {
-		con.readBuffer = nil
+// readFrame returns the next complete frame ([ length (2 bytes)] [ data ] [ auth (16 bytes)])
+// and reads from the connection until enough bytes are available.
+func (con *Connection) readFrame() ([]byte, error) {
+	for {
+		if len(con.encrypted) >= 2 {
+			size := 2 + int(binary.LittleEndian.Uint16(con.encrypted)) + 16
+			if len(con.encrypted) >= size {
+				frame := con.encrypted[:size]
+				con.encrypted = con.encrypted[size:]
+				return frame, nil
+			}
+		}
+
+		var buf [4096]byte
+		n, err := con.connection.Read(buf[:])
+		con.encrypted = append(con.encrypted, buf[:n]...)
+		if n == 0 && err != nil {
+			return nil, err
+		}
 	}
-
-	return n, err
 }
 
 // Write writes bytes to the connection.
